@@ -13,8 +13,10 @@ Model: `FV.Adapter` (adapter_transport.go as a transition system, one action per
 between blocking points; `Reachable` = reachable by ANY action list from `init true`, the repaired
 code) and `FV.Monitor` (transport_monitor.go). "nil only for a clean close" is read as the code's own
 classification (`Closer.cause`): nil for `Close()` and for END_OF_FILE — an EOF inside a frame is
-END_OF_FILE too — the error otherwise. `init false` is the code before the repair (one shared
-closeSignal); the `…_before_fix` theorems replay the defect on it.
+END_OF_FILE too — the error otherwise. `init false` is the code before the first repair (one shared
+closeSignal), `init true false` the code before the second (IsOpen always asks the underlying
+transport, holding the read lock; over a thrift.TSocket that call waits for the read loop's
+pending Read); the `…_before_fix` theorems replay the defects on them.
 -/
 import FV.Model.Adapter
 import FV.Model.Monitor
@@ -68,16 +70,35 @@ theorem c15_no_deadlock_loops {s : Sys} (hr : Reachable s) (k : Nat)
       simp only [step, hw', hmu]; simp; split <;> simp
     · have := h.loopAt k w hw; simp [hmu] at this
 
-/-- `Open` on an open transport reports ALREADY_OPEN, `Close` on a closed one NOT_OPEN, `IsOpen`
-reports the state, and none of them changes the life-cycle state (any state, mutex free). -/
+/-- `Open` on an open transport reports ALREADY_OPEN, `Close` on a closed one NOT_OPEN, and
+neither changes the life-cycle state (any state, mutex free). -/
 theorem c15_states_consistent (s : Sys) (i : Nat) (b : Bool) (hmu : s.mu = none) :
     (s.calls[i]? = some ⟨.open, .start⟩ → s.isOpen = true →
         step s (.callStep i b) = some (setCall s i (.done .alreadyOpen))) ∧
     (s.calls[i]? = some ⟨.close, .start⟩ → s.isOpen = false →
-        step s (.callStep i b) = some (setCall s i (.done .notOpen))) ∧
-    (s.calls[i]? = some ⟨.isOpen, .start⟩ →
-        step s (.callStep i b) = some (setCall s i (.done (.bool s.isOpen)))) := by
-  refine ⟨?_, ?_, ?_⟩ <;> intro hc <;> simp [step, hc, hmu] <;> intro ho <;> simp [ho]
+        step s (.callStep i b) = some (setCall s i (.done .notOpen))) := by
+  refine ⟨?_, ?_⟩ <;> intro hc <;> simp [step, hc, hmu] <;> intro ho <;> simp [ho]
+
+/-- `IsOpen` reports the state in ONE step, in every reachable state with the mutex free: it never
+enters the underlying transport's `IsOpen()` (which over a thrift.TSocket waits for the read loop's
+pending Read), because the read loop of an open incarnation has never returned. -/
+theorem c15_isopen_never_asks_underlying {s : Sys} (hr : Reachable s) (i : Nat) (b : Bool) (hmu : s.mu = none)
+    (hc : s.calls[i]? = some ⟨.isOpen, .start⟩) :
+    step s (.callStep i b) = some (setCall s i (.done (.bool s.isOpen))) := by
+  have h := inv_reachable hr
+  have hg := guarded_reachable hr
+  have hnot : ¬ (s.isOpen = true ∧ s.incs[s.incs.length - 1]?.map Inc.loop = some .done) := by
+    intro ⟨ho, hd⟩
+    obtain ⟨ic, hic, _⟩ := h.openInc ho
+    exact h.loopDone s.cur hd ⟨ho, cur_lt_of_some hic⟩
+  have hcond : (s.isOpen && (if s.guarded = true then
+      decide (s.incs[s.incs.length - 1]?.map Inc.loop = some .done) else true)) = false := by
+    rw [hg]; simp only [if_true]
+    cases ho : s.isOpen
+    · simp
+    · simp only [Bool.true_and, decide_eq_false_iff_not]
+      intro hd; exact hnot ⟨ho, hd⟩
+  simp only [step, hc, hmu, hcond]; simp
 
 /-- … and conversely `Open` returns nil only on a closed transport and then it is open;
 `Close` starts closing only an open transport. -/
@@ -163,7 +184,7 @@ theorem c15_failure_detected {s : Sys} (hr : Reachable s) (k : Nat)
       ∃ i w, s'.incs[k]? = some i ∧ i.closedBy = some w ∧ i.chan = [w.cause] ∧ i.chanClosed = true := by
   obtain ⟨as0, hr0⟩ := hr
   have h := inv_reachable ⟨as0, hr0⟩
-  obtain ⟨as, s', hl, hown, hrun, hd⟩ := loop_finishes h k hk
+  obtain ⟨as, s', hl, hown, hrun, hd⟩ := loop_finishes h (guarded_reachable ⟨as0, hr0⟩) k hk
   have hr' : Reachable s' := ⟨as0 ++ as, by rw [run_append, hr0]; exact hrun⟩
   obtain ⟨a, b⟩ := c15_reopen_again hr' k hd
   exact ⟨as, s', hl, hown, hrun, hd, a, b⟩
@@ -218,6 +239,16 @@ theorem c15_counterexample_before_fix_deadlock :
         .invoke .open, .callStep 1 true, .invoke .close, .callStep 2 true, .invoke .isOpen] = some s ∧
       s.mu = some (.call 2) ∧ step s (.callStep 2 true) = none ∧ step s (.callStep 3 true) = none := by
   refine ⟨_, rfl, ?_, ?_, ?_⟩ <;> decide
+
+/-- Before the second repair (`guarded = false`), over a transport whose `IsOpen()` waits for a
+pending Read (thrift.TSocket), silent peer: `IsOpen` takes the read lock, enters the underlying
+`IsOpen()` and stays there while the read loop is blocked in Read; `Close()` cannot take the lock.
+Only the peer (a `read` action) can release them. -/
+theorem c15_counterexample_before_fix_isopen_deadlock :
+    ∃ s, run (init true false) [.invoke .open, .callStep 0 true, .invoke .isOpen, .callStep 1 true, .invoke .close] = some s ∧
+      s.mu = some (.call 1) ∧ step s (.callStep 1 true) = none ∧ step s (.callStep 2 true) = none ∧
+      s.loopPc 0 = some .reading := by
+  refine ⟨_, rfl, ?_, ?_, ?_, ?_⟩ <;> decide
 
 /-- Before the repair: read error, reopen, read error — the second loop finds the stale token and
 returns; the transport stays open with nothing published. -/
